@@ -193,7 +193,7 @@ def execLine2 (w : World) (line : String) : World × String :=
       | some (.live g) =>
         match Ss.deploy text g with
         | (s, .ok, k) => (w.set a (.live s.g), s!"ok {k} ; " ++ showNats (keys s.g))
-        | (s, .err, k) => (w.set a (.live s.g), s!"err {k} ; " ++ showNats (keys s.g))
+        | (s, .err, _) => (w.set a (.live s.g), "err ; " ++ showNats (keys s.g))
         | (_, .panic, _) => (w.set a .dead, "panic")
       | some .dead => (w, "dead")
       | some .unmodelled => (w, "unmodelled")
